@@ -1038,13 +1038,15 @@ func expireV2Contracts(tx *txn, index types.ChainIndex) (elements []types.V2File
 }
 
 func incrementContractUsage(tx *txn, dbID int64, usage contracts.Usage) error {
-	const query = `SELECT rpc_revenue, storage_revenue, ingress_revenue, egress_revenue, account_funding, risked_collateral FROM contracts WHERE id=$1;`
+	const query = `SELECT rpc_revenue, storage_revenue, ingress_revenue, egress_revenue, registry_read, registry_write, account_funding, risked_collateral FROM contracts WHERE id=$1;`
 	var total contracts.Usage
 	err := tx.QueryRow(query, dbID).Scan(
 		decode(&total.RPCRevenue),
 		decode(&total.StorageRevenue),
 		decode(&total.IngressRevenue),
 		decode(&total.EgressRevenue),
+		decode(&total.RegistryRead),
+		decode(&total.RegistryWrite),
 		decode(&total.AccountFunding),
 		decode(&total.RiskedCollateral))
 	if err != nil {
@@ -1052,11 +1054,13 @@ func incrementContractUsage(tx *txn, dbID int64, usage contracts.Usage) error {
 	}
 	total = total.Add(usage)
 	var updatedID int64
-	err = tx.QueryRow(`UPDATE contracts SET (rpc_revenue, storage_revenue, ingress_revenue, egress_revenue, account_funding, risked_collateral) = ($1, $2, $3, $4, $5, $6) WHERE id=$7 RETURNING id;`,
+	err = tx.QueryRow(`UPDATE contracts SET (rpc_revenue, storage_revenue, ingress_revenue, egress_revenue, registry_read, registry_write, account_funding, risked_collateral) = ($1, $2, $3, $4, $5, $6, $7, $8) WHERE id=$9 RETURNING id;`,
 		encode(total.RPCRevenue),
 		encode(total.StorageRevenue),
 		encode(total.IngressRevenue),
 		encode(total.EgressRevenue),
+		encode(total.RegistryRead),
+		encode(total.RegistryWrite),
 		encode(total.AccountFunding),
 		encode(total.RiskedCollateral),
 		dbID).Scan(&updatedID)
